@@ -1,4 +1,5 @@
 import Cpppo.Proofs.ConcurrentArr
+import Cpppo.Proofs.ConcurrentLgx
 
 /-!
 # C09 — Concurrent sessions are isolated and each request is atomic
@@ -135,9 +136,14 @@ theorem atomic_invariant (exec : σ → List τ → σ × α) (m0 : σ) (prog : 
     intro e he m hm
     exact hpres e.1 e.2 (hpre e he) m hm
 
-/-- **Lock exclusion and no parse corruption**: at every moment of every schedule at most one thread
-is inside a given shared parser, and what the parser has accumulated there is a prefix of that
-thread's own request. -/
+/-- **No parse corruption**: whatever interleaving of parse steps happened, every request that was
+ever executed on behalf of session `s` is, symbol for symbol, one of the requests `s` itself sent. -/
+theorem no_parse_corruption (exec : σ → List τ → σ × α) (m0 : σ) (prog : Sid → List (Frame τ)) (sched : List Sid) :
+    ∀ e ∈ (runSched exec (init m0 prog) sched).hist, e.2 ∈ requests (prog e.1) :=
+  fun e he => hist_mem_prog (runSched_inv exec m0 prog _ (inv_init exec m0 prog) sched) e he
+
+/-- **Lock exclusion**: at every moment of every schedule at most one thread is inside a given shared
+parser, and a parser's lock is held exactly by the thread that is inside it. -/
 theorem parser_exclusive (exec : σ → List τ → σ × α) (m0 : σ) (prog : Sid → List (Frame τ)) (sched : List Sid) :
     let st := runSched exec (init m0 prog) sched
     (∀ s s' p, (st.thr s).pc.inside = some p → (st.thr s').pc.inside = some p → s = s') ∧
@@ -204,6 +210,16 @@ theorem multi_element_atomic (m0 : Mem) (prog : Sid → List (Frame Op)) (sched 
     exact read_uniform m k b n hn hm
   · intro s w hw m hm
     exact execOp_uniform k b n m w hm (fun op hop => hsafe s op (hop ▸ hw))
+
+/-! ## the Logix instance -/
+
+/-- **In the Logix device model every Read/Write Tag [Fragmented] request is at most ONE slice
+operation on ONE tag's array** (refused: none; read: one slice read, device untouched; write: one slice
+assignment, nothing else changes) — the model-level counterpart of the correspondence check "every
+accepted request made exactly one storage access".  It is what makes `execLgx` a legitimate atomic
+`exec` for the generic theorems above. -/
+theorem lgx_request_is_one_array_op (d : Logix.Dev) (s : Logix.Simple) (hs : isTagRequest s = true) :
+    OneArrayOp d (Logix.execSimple d s) := execSimple_one_array_op d s hs
 
 /-! ## sensitivity witnesses: the assumptions are necessary -/
 
